@@ -295,6 +295,13 @@ class C02(StreamProp):
         return any(v.startswith("A") for v in I.values()) or M.get("spec.skip") != M.get("spec.full")
 
     def tally(self, res, I, M):
+        # a leading number through the 32-lane model of do_skip_number and through the scalar one (proved equal: a difference
+        # means the executable definitions are not what was proved about)
+        nb, ns = M.get("m.numB"), M.get("m.numS")
+        if nb is not None:
+            res.distribution["number-block-model:" + nb.split(":")[0]] += 1
+            if nb != ns:
+                res.model_disagreements.append(dict(key="c02:block-number-model-vs-scalar-model", case="", detail=f"block {nb} scalar {ns}"))
         res.distribution["spec.skip=" + str(M.get("spec.skip"))] += 1
         res.distribution["spec.full=" + str(M.get("spec.full"))] += 1
         v = canon_impl_verdict(I.get("lazy", ""))
